@@ -186,3 +186,44 @@ func verifIndex(name string) int {
 
 func VerifHarness_C15_Colour_7()  { verifC15Colour(7) }
 func VerifHarness_C15_Colour_12() { verifC15Colour(12) }
+
+// C15-O3b: several streams may belong to one container (parser stages split a
+// container's log into label sets) and arrive in any order: each container
+// still gets one palette colour, used for all its lines.
+func verifC15ColourStreams(nStreams int) {
+	names := []string{"a", "b", "c"}
+	var streams []lokiapi.Stream
+	owner := map[uint64]string{}
+	for i := 0; i < nStreams; i++ {
+		name := names[vsymChoice("container", len(names))]
+		t := uint64(1700000000000000000 + i)
+		owner[t] = name
+		st := verifStream(name, lokiapi.LogEntry{T: t, V: "m"})
+		st.Stream.Value["level"] = "l" + strconv.Itoa(i) // distinct label sets
+		streams = append(streams, st)
+	}
+	var buf bytes.Buffer
+	err := renderResult(&buf, renderOptions{timestamp: false, container: true, color: true}, verifData(streams))
+	vsymAssert(err == nil, "rendering succeeds")
+	lines := bytes.Split(buf.Bytes(), []byte("\n"))
+	vsymAssert(len(lines) == nStreams+1, "one line per entry")
+	seen := map[string]string{}
+	for k := 0; k < nStreams; k++ {
+		line := string(lines[k])
+		end := bytes.IndexByte(lines[k], 'm')
+		vsymAssert(end > 0 && line[0] == 0x1b, "line starts with a colour sequence")
+		col := line[:end+1]
+		rest := line[end+1:]
+		vsymAssert(len(rest) >= 1, "a name follows the colour")
+		name := rest[:1]
+		vsymAssert(name == owner[uint64(1700000000000000000+k)], "entries are printed in time order with their container's name")
+		if prev, ok := seen[name]; ok {
+			vsymAssert(prev == col, "one colour per container, used for all its lines")
+		}
+		seen[name] = col
+	}
+	vsymReach("C15_colour_streams")
+}
+
+func VerifHarness_C15_ColourStreams_3() { verifC15ColourStreams(3) }
+func VerifHarness_C15_ColourStreams_4() { verifC15ColourStreams(4) }
